@@ -20,7 +20,7 @@ Cont(kind, n) == [k |-> kind, sh |-> <<>>, dt |-> "", ch |-> [i \in 1..n |-> OpL
                   keys |-> IF kind = "dict" THEN SubSeq(<<"a", "b", "c">>, 1, n) ELSE <<>>]
 Blk(kind, cont, ops) == Term(kind, 0, cont, <<>>, ops)
 
-NSlots(t) == CASE t \in {1, 2, 3, 4, 5, 9, 11} -> 4 [] t \in {6, 8, 10} -> 3 [] t = 7 -> 2
+NSlots(t) == CASE t \in {1, 2, 3, 4, 5, 9, 11, 12} -> 4 [] t \in {6, 8, 10} -> 3 [] t = 7 -> 2
 
 Assemble(t, c, x) ==
   CASE t = 1 -> Comp(<<Blk("bdiag", Cont(c, 2), <<x[1], x[2]>>), Blk("bdiag", Cont(c, 2), <<x[3], x[4]>>)>>)
@@ -35,6 +35,9 @@ Assemble(t, c, x) ==
     [] t = 9 -> \* differently nested containers with equal structures: [[x1, x2]] against [BlockDiagonal([x3, x4])]
          Comp(<<Blk("bdiag", ListS(<<ListS(<<OpLeaf(1), OpLeaf(2)>>)>>), <<x[1], x[2]>>),
                 Blk("bdiag", Cont("list", 1), <<Blk("bdiag", Cont("list", 2), <<x[3], x[4]>>)>>)>>)
+    [] t = 12 -> \* the mirror image: the LEFT container is the shallower one
+         Comp(<<Blk("bdiag", Cont("list", 1), <<Blk("bdiag", Cont("list", 2), <<x[1], x[2]>>)>>),
+                Blk("bdiag", ListS(<<ListS(<<OpLeaf(1), OpLeaf(2)>>)>>), <<x[3], x[4]>>)>>)
     [] t = 10 -> Blk("bdiag", Cont(c, 2), <<Blk("bdiag", Cont("list", 2), <<x[1], x[2]>>), x[3]>>)
     [] t = 11 -> \* block operators between two plain operators: row @ diag @ diag @ column
          Comp(<<Blk("brow", Cont(c, 1), <<x[1]>>), Blk("bdiag", Cont(c, 1), <<x[2]>>),
@@ -57,7 +60,7 @@ Pick(n) == /\ phase = "pick" /\ Len(slots) < NSlots(tpl)
            /\ slots' = Append(slots, n) /\ UNCHANGED <<phase, tpl, ck, term, red>>
 
 Build == /\ phase = "pick" /\ Len(slots) = NSlots(tpl)
-         /\ (tpl \in {6, 7, 8, 9} => ck = "list")            \* container kind irrelevant there
+         /\ (tpl \in {6, 7, 8, 9, 12} => ck = "list")            \* container kind irrelevant there
          /\ LET t == Assemble(tpl, ck, [i \in 1..Len(slots) |-> At(slots[i])]) IN
               /\ (tpl = 8 => InS(At(slots[1])) = OutS(At(slots[2])) /\ OutS(At(slots[1])) = InS(At(slots[2]))
                              \* the iterative solver is only claimed for SPD operators (C06)
